@@ -56,6 +56,20 @@ def run(ctx):
             M = of.get_sparse_operator(fop, n_qubits=n)
             if shape_ok('fermion_sparse', M, 2 ** n, rp):
                 add('fermion_sparse', '(mat_eqb (fermi_matrix %s %s) %s)' % (cnat(n), coq_fop(fop), cmat(dense(M).tolist())), rp, key=(n, repr(fop.terms)))
+    # the smallest size: operators acting on no qubit (identity-only or zero) are 1 x 1 matrices, with n_qubits omitted or 0
+    for cval in (2.5, 1.5 - 1j, -0.75, 0.0):
+        for cls_, mk_, mat_ in (('QubitOperator', lambda c: of.QubitOperator((), c) if c else of.QubitOperator(), 'qubit_matrix'),
+                                ('FermionOperator', lambda c: of.FermionOperator((), c) if c else of.FermionOperator(), 'fermi_matrix')):
+            op0 = mk_(cval)
+            for kw in ({}, {'n_qubits': 0}):
+                rp = {'call': 'get_sparse_operator(%s) on zero qubits' % cls_, 'coefficient': repr(cval), 'kwargs': repr(kw)}
+                ctx.count('zero_qubit_sparse', 1, nontrivial_key=(cls_, cval, repr(kw)))
+                try:
+                    M = of.get_sparse_operator(op0, **kw); ev = of.eigenspectrum(op0)
+                    if M.shape != (1, 1) or abs(complex(dense(M)[0, 0]) - complex(cval)) > 0 or len(ev) != 1 or abs(complex(ev[0]) - complex(cval)) > 1e-12:
+                        ctx.violation('C06 %s acting on no qubit: matrix %r / spectrum %r instead of the 1 x 1 matrix [[%r]]' % (cls_, dense(M).tolist(), list(ev), cval), rp)
+                except Exception as e:
+                    ctx.violation('C06 %s acting on no qubit: %s: %s instead of the 1 x 1 matrix [[%r]]' % (cls_, type(e).__name__, e, cval), rp)
     # ---- tensor types: dimension from the tensor (also with trailing zero orbitals) or from n_qubits
     for i in range(N(40, 300)):
         n = rng.choice([1, 2, 3, 4]); used = rng.randint(1, n)
